@@ -216,6 +216,10 @@ impl Ctx {
 
     /// Is `known_id` an open known finding of this property?
     pub fn is_open_known(&self, known_id: &str) -> bool {
+        if std::env::var("VERIF_FIND_KNOWN").map_or(false, |v| v == known_id) {
+            // witness search: report this finding as if it were unknown, to obtain a shrunk replay
+            return false;
+        }
         !self.strict && self.known.open(&self.id).iter().any(|k| k.id == known_id)
     }
 
